@@ -2140,6 +2140,8 @@ class SSHTunTapChannel(SSHForwardChannel[bytes]):
         """Strip off address family on incoming packets in TUN mode"""
 
         if self._mode == SSH_TUN_MODE_POINTTOPOINT:
+            # The peer counted the address family against the window too
+            self._recv_window -= len(data[:4])
             data = data[4:]
 
         super()._accept_data(data, datatype)
